@@ -199,6 +199,20 @@ pub fn faults(cmd: u8, s: &S, v: &V, rng: &mut Rng, out: &mut Vec<Fault>) {
             }
             put("wrong-type", sample, out);
         }
+        // ---- ill-formed UTF-8 inside a text string (malformed CBOR: major type 3 must hold UTF-8)
+        if matches!(node.s, S::Text { .. } | S::TextTrunc { .. } | S::TextDropIfLonger { .. } | S::TextDiscard) {
+            for (bi, bad) in crate::mutate::bad_utf8_samples().into_iter().enumerate() {
+                if bi % 3 != (node.path.len() % 3) && bi > 5 {
+                    continue;
+                }
+                let mut t = b"ab".to_vec();
+                t.extend_from_slice(&bad);
+                t.push(b'c');
+                if std::str::from_utf8(&t).is_err() {
+                    put("ill-formed-utf8", V::T(t), out);
+                }
+            }
+        }
         // ---- one past the limit / range (non-lossy members only)
         match node.s {
             S::Bytes { min, max } => {
@@ -346,7 +360,7 @@ pub fn run(rep: &mut Rep) {
             faults(*cmd, s, &v, &mut rng, &mut fs);
             let step = if rep.light { (fs.len() / 12).max(1) } else { 1 };
             for (j, f) in fs.iter().enumerate() {
-                if j % step != 0 || f.bytes.len() > schema::MAX_MSG {
+                if j % step != 0 {
                     continue;
                 }
                 if rep.begin(&format!("{}/{}", name, f.kind)) {
@@ -386,6 +400,46 @@ pub fn run(rep: &mut Rep) {
                 };
                 judge_fault(rep, "any", &f);
             }
+        }
+    }
+    // messages beyond the 7609-byte transport maximum: whatever is rejected is still answered with one
+    // of the three codes (fault classes as for shorter inputs)
+    let mut k = 0u64;
+    for &len in &[7610usize, 7611, 8000, 16384, 65536] {
+        for (kind, cmd, fill, expect) in [
+            ("oversize/unassigned-command", 0x03u8, 0x00u8, 0x01u8),
+            ("oversize/unsupported-command", 0x0du8, 0xa0, 0x01),
+            ("oversize/garbage", 0x01, 0xff, 0x12),
+            ("oversize/truncated-map", 0x02, 0xbb, 0x12),
+            ("oversize/zeros", 0x06, 0x00, 0x12),
+        ] {
+            k += 1;
+            if !rep.mine(k) {
+                continue;
+            }
+            let mut b = vec![cmd];
+            b.resize(len, fill);
+            if rep.begin(kind) {
+                let f = Fault {
+                    kind: "oversize-message",
+                    member: String::new(),
+                    expect,
+                    bytes: b,
+                };
+                judge_fault(rep, "any", &f);
+            }
+        }
+        // a well-formed map that lacks a required parameter, padded by a huge optional member
+        k += 1;
+        if rep.mine(k) && rep.begin("oversize/missing-required") {
+            let body = V::M(vec![(V::U(2), V::B(vec![0x5a; len]))]);
+            let f = Fault {
+                kind: "oversize-message-missing-required",
+                member: "offset".into(),
+                expect: 0x14,
+                bytes: msg(0x0c, &body),
+            };
+            judge_fault(rep, "LargeBlobs", &f);
         }
     }
     // the empty message
